@@ -828,6 +828,12 @@ class FuncFlow:
                         else:
                             e2[name] = UNKNOWN
                         outs.append(e2)
+                elif meth == "insert" and len(a.value.args) == 2 and isinstance(a.value.args[0], ast.Constant) \
+                        and isinstance(a.value.args[0].value, int) and len(cur[1]) < self.MAXLIST:
+                    k = a.value.args[0].value
+                    lst = list(cur[1])
+                    lst.insert(k, self.item_of(a.value.args[1], env))
+                    env[name] = ("list", tuple(lst))
                 elif meth in ("append", "extend", "insert", "pop", "remove", "clear", "reverse", "sort"):
                     env[name] = UNKNOWN
         elif isinstance(a, (ast.Import, ast.ImportFrom)):
